@@ -161,10 +161,13 @@ void h_clean_up(void) {
 
 /* ---------------------------------------------------------------- overflow list (heap refused the push): bounded */
 #ifdef VERIF_TS_OVERFLOW
+#    ifndef VERIF_TS_OVF_N
+#        define VERIF_TS_OVF_N 3 /* tasks in the overflow list before the insertion: at most this many (<= 3) */
+#    endif
 void h_schedule_future_overflow(void) {
     TS_GHOSTS(); ts_build();
     size_t a = nondet_size_t(), o[3] = {nondet_size_t(), nondet_size_t(), nondet_size_t()}, n = nondet_size_t();
-    __CPROVER_assume(a < TSK && o[0] < TSK && o[1] < TSK && o[2] < TSK && n <= 3);
+    __CPROVER_assume(a < TSK && o[0] < TSK && o[1] < TSK && o[2] < TSK && n <= VERIF_TS_OVF_N);
     __CPROVER_assume(a != o[0] && a != o[1] && a != o[2] && o[0] != o[1] && o[0] != o[2] && o[1] != o[2]);
     struct aws_task *task = &g_tk[a];
     uint64_t t = nondet_u64();
@@ -200,7 +203,7 @@ void h_schedule_future_overflow(void) {
     __CPROVER_assert(nd == &g_sc.timed_list.tail && g_sc.timed_list.tail.prev == prev, "overflow list: ends at the tail sentinel");
     if (n == 0) CANARY("overflow list was empty");
     else if (pos == 0) CANARY("inserted at the front");
-    else if (pos == n && n == 3 && g_tk[o[2]].timestamp == t) CANARY("inserted at the back behind a task of the same time");
+    else if (pos == n && n == VERIF_TS_OVF_N && g_tk[o[n - 1]].timestamp == t) CANARY("inserted at the back behind a task of the same time");
     else if (pos == n) CANARY("inserted at the back");
     else CANARY("inserted in the middle");
 }
